@@ -442,7 +442,7 @@ class Runner:
             return
         h(key, bits, out)
 
-    def import_call(self, m, vals, ret):
+    def import_call(self, m, vals, ret, before_return=None, keep=False):
         """m: manifest entry (dir=import): drive the generated safe wrapper with `vals`; the host
         (this process + m_host) lifts the arguments, and answers with `ret`."""
         out = {"key": m["key"], "kind": "import", "vals": vals, "ret": ret}
@@ -450,8 +450,11 @@ class Runner:
 
         def handler(key, bits, out):
             if key != m["key"]:
-                out.setdefault("unexpected_imports", []).append(key)
-                native.send("RETURN|0")
+                if self.import_handler is not None:
+                    self.import_handler(key, bits, out)
+                else:
+                    out.setdefault("unexpected_imports", []).append(key)
+                    native.send("RETURN|0")
                 return
             out["import_bits"] = bits
             out["import_events"] = out.get("import_events", 0) + 1
@@ -473,12 +476,14 @@ class Runner:
                     flat, hostblocks = place_image(native, im)
                     retbits = flat[0] if flat else 0
                 out["hostblocks"] = hostblocks
+            if before_return is not None:
+                before_return(out)
             native.send(f"RETURN|{retbits}")
 
         out["import_handler"] = handler
         if m["result"] is not None:
             out["model_returned"] = self.rust_observe(m["result"], ret)
-        native.send(f"DRIVE|{m['key']}|(r{''.join(' ' + v for v in vals)})")
+        native.send(f"DRIVE|{m['key']}|(r{''.join(' ' + v for v in vals)})" + ("|keep" if keep else ""))
         ans = self.await_final(out)
         del out["import_handler"]
         f = ans.split("|")
@@ -486,6 +491,11 @@ class Runner:
             out["error"] = ans
             return out
         out["returned"] = f[1]
+        if " #" in f[1]:
+            out["returned"], _, st = f[1].rpartition(" #")
+            out["stash"] = int(st)
+        elif f[1].startswith("#"):
+            out["returned"], out["stash"] = "", int(f[1][1:])
         out["call_report"] = parse_report(f[2:])
         return out
 
@@ -573,7 +583,7 @@ def gen_val(rng, t, depth=0, edge=False, handle=None):
     """value term of type tree t: tools/abivals.py for scalars, own structure choices for containers
     (occasional large / empty lists, unique and duplicate map keys); `handle(kind)` supplies handles"""
     if isinstance(t, str):
-        if t in ("own", "borrow") and handle is not None:
+        if handle is not None and (t in ("own", "borrow") or t.startswith("own@") or t.startswith("borrow@")):
             return handle(t)
         return abivals.gen(rng, t, depth, edge)
     k = t[0]
@@ -884,6 +894,7 @@ def classify_compile_error(err):
     """stable class keys of the known ways generated Rust fails to compile"""
     if "into_bytes" in err: return "rust-does-not-compile:raw-strings-owned-string-lowering"
     if "cannot move out of type" in err and "non-copy array" in err: return "rust-does-not-compile:fixed-list-non-copy-import-param"
+    if "missing lifetime specifier" in err: return "rust-does-not-compile:borrowing-missing-lifetime"
     return "rust-does-not-compile:other"
 
 
